@@ -276,6 +276,9 @@ def handleSched (j : Json) : Json :=
   let cls := backend ++ (if hasLoss then "-loss" else if hasAsync then "-overlap" else "-seq") ++
     (if contended then "-contended" else "") ++ (if fin.overlap then "-lease-gone" else "")
   let _ := n
+  -- etcd schedules in which a holder's lease expired without the script revoking it (the machine
+  -- stalled for a whole TTL, three times in a row) say nothing about the code: not judged
+  if jbool (jget impl "perturbed") then verdict id true (jstrs model) [] "perturbed" true else
   verdict id agree (jstrs model) fin.viol.eraseDups cls (!contended && !fin.overlap && !hasLoss)
 
 end Oracle.Lock
